@@ -7,6 +7,7 @@
 //! code and prints one canonical line per case.
 mod util;
 mod alloc;
+mod dbgparse;
 
 #[global_allocator]
 static GLOBAL: alloc::Counting = alloc::Counting;
